@@ -397,6 +397,21 @@ func Inflight(slot int, scenario string, path []string) {
 	m[0], m[1], m[2], m[3] = byte(l), byte(l>>8), byte(l>>16), byte(l>>24)
 }
 
+// TouchSlots tells the supervisor that every busy worker slot is still making progress on
+// its current record. Only for harnesses that bound the calls of the code under test with
+// their own limits (and therefore cannot hang unnoticed).
+func TouchSlots() {
+	if os.Getenv(envInflight) == "" {
+		return
+	}
+	Beat()
+	inflightMaps.Range(func(_, v any) bool {
+		m := v.([]byte)
+		binary.LittleEndian.PutUint64(m[4:12], binary.LittleEndian.Uint64(m[4:12])+1)
+		return true
+	})
+}
+
 // InflightIdle marks a worker slot as waiting for work.
 func InflightIdle(slot int) { Inflight(slot, "", nil) }
 
